@@ -777,6 +777,9 @@ func c03CheckOut(col *Collector, idx int, c c03Case, out *big.Int) {
 		}
 		return
 	}
+	if q == 1 && c03BigS(c.Amt).Sign() >= 0 { // integer weight ratio w_in = p*w_out: theorem C03_weighted_out_integer_ratio
+		c03IntRatioCheckOut(col, idx, c, bi, bo, a, fee, out, p)
+	}
 	// unequal weights: one unit + 1e-8 relative precision of the power
 	// violation iff out > exact*(1+1e-8) + 1  <=>  exact < (out-1)/(1+1e-8)
 	// (sharp) out <= exact*(1+1e-8) + 1, i.e. 1e-8 of the OUTPUT; where that fails the property's literal allowance decides:
@@ -807,6 +810,9 @@ func c03CheckIn(col *Collector, idx int, c c03Case, in *big.Int) {
 			col.Violate(Violation{Signature: c03OneUnitSig(bi), Detail: fmt.Sprintf("in=%s is more than one base unit below the exact amount (B_in=%s): %+v", in, bi, c), History: idx, Replay: c})
 		}
 		return
+	}
+	if p == 1 && o.Sign() >= 0 { // integer weight ratio w_out = q*w_in: theorem C03_weighted_in_integer_ratio
+		c03IntRatioCheckIn(col, idx, c, bi, bo, o, in, q)
 	}
 	// violation iff in < exact*(1-1e-8) - 1  <=>  exact > (in+1)/(1-1e-8)
 	t := new(big.Rat).Quo(c03RatI(new(big.Int).Add(in, big.NewInt(1))), new(big.Rat).Sub(big.NewRat(1, 1), c03Eps))
@@ -1050,6 +1056,37 @@ func TestC03(t *testing.T) {
 		if o.Bonus.Sign() > 0 {
 			col.Op("bonus_positive", "ok", o.Bonus)
 		}
+	}
+	// 3b. integer-ratio weighted pools (1:2, 1:3, 1:4, ... in the LegacyDec.Power direction), dust / mid / huge reserves
+	//     and amounts; own Coq budget (integer path: constant cost) so that the cases above and below are not displaced
+	ri := NewRng(uint64(seed), 304)
+	nInt := 90 * scale
+	for i := 0; i < 2*nInt; i++ {
+		kind := "out"
+		if i >= nInt {
+			kind = "in"
+		}
+		c := c03GenIntRatio(ri, kind)
+		var r c03Res
+		if kind == "out" {
+			r = c.calcOut()
+			cost := c.cost(false)
+			total += cost
+			emit(1, append(c.poolArgs(), c03Zs(c.Amt), c03Zs(c.Fee)), r, cost)
+			if r.Code == 0 {
+				c03CheckOut(col, idx-1, c, r.V1)
+			}
+		} else {
+			r = c.calcIn()
+			cost := c.cost(true)
+			total += cost
+			emit(2, append(c.poolArgs(), c03Zs(c.Amt), c03Zs(c.Fee)), r, cost)
+			if r.Code == 0 {
+				c03CheckIn(col, idx-1, c, r.V1)
+			}
+		}
+		col.Op("cp_"+kind+"_intratio", r.kind(), c03BigS(c.Amt))
+		col.Distinct(fmt.Sprintf("%s:%+v", kind, c), r.Code == 0)
 	}
 	// 4. the full application
 	nApp := 24
